@@ -199,7 +199,43 @@ func setup(x *mon.Ctx) {
 // ---------------------------------------------------------------------------------------------
 // every bit length through Finish
 
-var bitKinds = []string{"random", "random+junk", "zeros+junk", "ones"}
+var bitKinds = []string{"random", "random+junk", "zeros+junk", "ones", "sparse"}
+
+// sparsify gives a random message the structure real traffic has and uniformly random bytes never show: aligned
+// 32-bit words that are zero next to words that are not (zero-padded fields, counters), single set bits, runs of zero
+// octets. A MAC that is computed word by word, with shortcuts for "nothing to accumulate", meets its special cases here.
+func sparsify(r *mon.Rand, m []byte) {
+	switch r.Intn(4) {
+	case 0: // every aligned 32-bit word is zero with probability 1/2
+		for i := 0; i < len(m); i += 4 {
+			if r.Bool() {
+				for j := i; j < i+4 && j < len(m); j++ {
+					m[j] = 0
+				}
+			}
+		}
+	case 1: // one-hot
+		for i := range m {
+			m[i] = 0
+		}
+		if len(m) > 0 {
+			m[r.Intn(len(m))] = 1 << uint(r.Intn(8))
+		}
+	case 2: // a run of zero octets
+		if len(m) > 0 {
+			a := r.Intn(len(m))
+			for j := a; j < len(m) && j < a+1+r.Intn(24); j++ {
+				m[j] = 0
+			}
+		}
+	default: // every octet is zero with probability 1/2
+		for i := range m {
+			if r.Bool() {
+				m[i] = 0
+			}
+		}
+	}
+}
 
 // bitMessage builds a message of nbits bits; "junk" kinds set the unused low bits of
 // the last byte and append bytes after it, which Finish(p, nbits) must ignore.
@@ -215,11 +251,13 @@ func bitMessage(r *mon.Rand, kind string, nbits int) []byte {
 		for i := range m {
 			m[i] = 0xff
 		}
+	case "sparse":
+		sparsify(r, m)
 	}
 	if u := nbits % 8; u != 0 {
 		mask := byte(0xff) >> uint(u)
 		switch kind {
-		case "random", "ones":
+		case "random", "ones", "sparse":
 			m[n-1] &^= mask
 		default:
 			m[n-1] |= mask & byte(r.Uint64()|1)
@@ -419,6 +457,10 @@ func eiaBytes(x *mon.Ctx) {
 					c.Class("eia.bytes/%s/%s/%s", m.name(), byteClass(n), style)
 					extra := r.Intn(40)
 					msg := r.Bytes(n + extra)
+					if r.Intn(3) == 0 {
+						sparsify(r, msg)
+						c.Class("eia.bytes.sparse/%s/%s", m.name(), byteClass(n))
+					}
 					pl := place(r.Intn(nPlaces))
 					c.Class("eia.place/%s/Write@%v", m.name(), pl)
 					var h zuc.EIA
@@ -519,6 +561,10 @@ func eiaHist(x *mon.Ctx) {
 			c.Detail("history", lazyLog{&log})
 			nops := 2 + r.Intn(14)
 			big := r.Intn(12) == 0
+			sparse := r.Intn(3) == 0 // structured data (zero words, single bits) in every Write and Finish of this walk
+			if sparse {
+				c.Class("eia.hist.sparse/%s", m.name())
+			}
 			alive := true
 			for k := 0; k < nops && alive; k++ {
 				var what string
@@ -543,6 +589,9 @@ func eiaHist(x *mon.Ctx) {
 					what = fmt.Sprintf("Write(%d)", n)
 					log = append(log, what)
 					data := r.Bytes(n)
+					if sparse {
+						sparsify(r, data)
+					}
 					wp := place(r.Intn(nPlaces))
 					alive = writeAll(c, h, data, []int{n}, wp)
 					c.Class("eia.place/%s/Write@%v", m.name(), wp)
@@ -562,6 +611,9 @@ func eiaHist(x *mon.Ctx) {
 						nb = 0
 					}
 					tail := bitMessage(r, "random+junk", nb)
+					if sparse {
+						sparsify(r, tail)
+					}
 					fp := place(r.Intn(nPlaces))
 					p := fp.put(g, tail)
 					c.Class("eia.place/%s/Finish@%v", m.name(), fp)
